@@ -1,31 +1,39 @@
-(** C20: one Open and one Close record per actor; filter (Layer R) -- PARTIAL.
-    Proved: ids come from the translated successor (non-zero, +1 below 2^64-1); the Open record sits immediately
-    before the creation and the Close record is pushed immediately in front of the notifier invocation with the
-    actor's id and the marker of the cause; a record is delivered iff the translated filter allows its level and a
-    logger is installed; the whole 9 x 9 From<LogLevel> / allows table; allows distributes over filter union.
-    Not yet proved: the trace-level statement for all programs (validated by ./check C20). *)
+(** C20: one Open and one Close record per actor, fresh LogIDs, parent ids, the filter is respected (Layer R). *)
 From Coq Require Import ZArith NArith List Bool.
 Import ListNotations.
-From Stk Require Import Lib.U Gen.SrcCore Gen.SrcLog R.Syntax R.Rt R.Mon R.Count R.OneStep.
+From Stk Require Import Lib.U Gen.SrcCore Gen.SrcLog R.Syntax R.Rt R.Mon R.Count R.C20Proofs.
 Local Open Scope Z_scope.
 
-Theorem C20_open_close_partial :
-  (forall seq, 0 <= seq < 18446744073709551615 -> log_id_next seq = Some (seq + 1)) /\
-  (forall seq v, 0 <= seq -> log_id_next seq = Some v -> v <> 0) /\
-  (forall s a nt parent vis,
-     tr (new_actor s a nt parent vis) =
-       (if vis then [EOwnNew a] else []) ++ EActor a ::
-       tr (log_rec (set_logseq s (oz (log_id_next (logseq s)))) (oz (log_id_next (logseq s))) LOGLEVEL_OPEN parent 0)) /\
-  (forall a c s x, aget (actors s) a = Some x ->
-     handle (MLogClose a c) s = ([], log_rec s (a_logid x) LOGLEVEL_CLOSE 0 (marker_of c))) /\
-  (forall s id lvl parent mk,
-     tr (log_rec s id lvl parent mk) = (if allows s lvl && haslogger s then [ELog id lvl parent mk] else []) ++ tr s).
-Proof.
-  split; [exact log_id_next_spec|]. split; [exact log_id_next_nonzero|].
-  split; [exact new_actor_records|]. split; [exact close_record | exact log_delivery].
-Qed.
-Print Assumptions C20_open_close_partial.
+(* For every program, fuel and deferrer kind: the monitor C20_ok (R/Mon.v) holds of the observable part of the trace
+   of a terminated execution of the model.  [observable] removes exactly the events that exist only on the model
+   side (printed with a leading '~': class flags and the marker of the field phase of Stakker::drop); the real
+   interpreter never prints them.  C20_ok says: every actor creation is immediately preceded by its Open record iff a
+   logger is installed and the filter allows Open; the record's id is non-zero and greater than every id handed out
+   before in this Stakker; its parent is the id of the actor whose method is running (0 at top level); a
+   termination notification with a cause is immediately preceded by the Close record with the same id and the
+   marker of the cause iff the filter allows Close; Core::log delivers a record iff the filter allows the level;
+   no other records appear; LogFilter queries agree with the translated filter functions.
+   The bound: LogIDs are u64 counters (wrapping_add(1).max(1) in the code, translated in Gen/SrcLog.v): the statement
+   is for executions that emit fewer than 2^64 - 1 events. *)
+Theorem C20_open_close_filter : forall (d : dkind) (p : list top) (fuel : nat) (t : list ev),
+  exec d fuel p = Done t -> Z.of_nat (length t) < 18446744073709551615 -> C20_ok (observable t) = true.
+Proof. exact C20_proved. Qed.
+Print Assumptions C20_open_close_filter.
 
+(* the hypotheses are satisfiable and the statement is not vacuous: a parent and a child actor, Open records with
+   and without parent id, a Close record, user records delivered / filtered *)
+Example C20_example :
+  exists t, exec DGlobal 600
+    [TNew 0; TSetLogger [2; 6; 7];
+     TDo [ANewActor 1 1 None; ACallPrep 1 (Clo 1 0 0 [] [ALog 2; ALog 1]) true;
+          ACall 1 (Clo 2 0 0 [] [ANewActor 2 2 None; ACallPrep 2 (Clo 3 0 0 [] []) true; AStop])];
+     TRun 2 false] = Done t
+    /\ Z.of_nat (length t) < 18446744073709551615
+    /\ In (ELog 1 LOGLEVEL_OPEN 0 0) t /\ In (ELog 2 LOGLEVEL_OPEN 1 0) t /\ In (ELog 1 LOGLEVEL_CLOSE 0 0) t
+    /\ In (ELog 1 LOGLEVEL_INFO 0 0) t /\ ~ In (ELog 1 LOGLEVEL_DEBUG 0 0) t.
+Proof. exact C20_nontrivial. Qed.
+
+(* the whole From<LogLevel> / allows table of the translated filter functions *)
 Theorem C20_filter_table : allows_table =
   [ [true; true; true; true; true; false; false; false; false];
     [false; true; true; true; true; false; false; false; false];
